@@ -77,13 +77,14 @@ def small_lexicons():
     subcat subset, <= 1 entry-level frame per entry (with/without senses)."""
     frame_opts = [None, {'id': 'f1', 'subcategorizationFrame': 'F1'},
                   {'id': 'f1', 'subcategorizationFrame': 'F1', 'senses': ['s11']}]
-    frame2_opts = [None, {'id': 'f2', 'subcategorizationFrame': 'F2'}]
+    frame2_opts = [None, {'id': 'f2', 'subcategorizationFrame': 'F2'},
+                   {'subcategorizationFrame': 'F4'}, {'subcategorizationFrame': 'F4', 'senses': ['s11']}]  # id optional
     subcats = [[], ['f1'], ['f2'], ['f1', 'f2']]
     eframes = [None, {'subcategorizationFrame': 'F1'}, {'subcategorizationFrame': 'F3'},
                {'subcategorizationFrame': 'F3', 'senses': ['s11']}]
     for f1, f2 in itertools.product(frame_opts, frame2_opts):
         frames = [copy.deepcopy(f) for f in (f1, f2) if f]
-        ids = {f['id'] for f in frames}
+        ids = {f['id'] for f in frames if 'id' in f}
         for nsenses in (1, 2):
             for sc in itertools.product(subcats, repeat=nsenses):
                 if any(set(x) - ids for x in sc):
@@ -113,7 +114,11 @@ def check_collect_frames():
         cases += 1
         before = copy.deepcopy(lex)
         want = expected_frames(copy.deepcopy(lex))
-        got = A._collect_frames(lex)
+        try:
+            got = A._collect_frames(lex)
+        except Exception as exc:   # noqa: BLE001  - a valid lexicon must not make it raise
+            wrong.append({'lexicon': before, 'got': f'{type(exc).__name__}: {exc}', 'want': want})
+            continue
         if lex != before:
             mutated.append({'lexicon': before, 'after': copy.deepcopy(lex)})
         # compare with the specification computed on the pristine copy
